@@ -276,6 +276,109 @@ RwTrivia(p) ==
 Structural(p) == RwRename(p) \cup RwSwap(p) \cup RwHoist(p) \cup RwDebug(p) \cup RwPartial(p)
 Rewrites(p) == IF p.triv = <<>> THEN Structural(p) \cup RwTrivia(p) ELSE RwTrivia(p)
 
+---------------------------------------------------------------------------
+(* Token programs.  The token-level rewrites (InsertWs / InsertCmt) are      *)
+(* meaning-preserving BY DEFINITION at every gap between two tokens - that   *)
+(* is what "between tokens" means - so they need no evaluator, only a token  *)
+(* sequence whose gaps are exactly the places where Sass allows whitespace   *)
+(* and comments.  The snippets below cover the syntax the mini language      *)
+(* above does not have: modules (@use .. as / with, @forward .. show),       *)
+(* namespaced variables, functions and mixins, @include with positional and  *)
+(* named arguments, content blocks and `using`, @mixin/@function parameter   *)
+(* lists with defaults, control flow, maps, flags, interpolation, &.         *)
+(* Conventions: a token starting with `~` is written tight against the       *)
+(* previous token in the ORIGINAL (`lib.box` `~(` -> `lib.box(`) although    *)
+(* Sass allows whitespace there; where Sass does not allow whitespace the    *)
+(* text is ONE token (`lib.dbl(`, `lib.$d`, `.e-#{$k}`, `!default`).         *)
+(* cmt = 0: only whitespace is inserted (gaps inside selectors, @at-root     *)
+(* preludes, interpolation and calc(), where the property does not say that  *)
+(* a silent comment is skipped).                                             *)
+Snip(id, cmt, main, lib, mid) == [id |-> id, cmt |-> cmt, main |-> main, lib |-> lib, mid |-> mid]
+
+LibStd == <<"$d", ":", "10px", "!default", ";", "$e", ":", "2", ";",
+            "@function", "dbl", "~(", "$n", ")", "{", "@return", "$n", "*", "2", ";", "}",
+            "@mixin", "box", "~(", "$w", ",", "$h", ":", "2px", ")", "{", "width", ":", "$w", ";", "height", ":", "$h", ";", "}",
+            "@mixin", "wrap", "~(", "$p", ":", "1", ")", "{", ".w", "{", "@content", "~(", "$p", ")", ";", "}", "}",
+            "@mixin", "plain", "{", "c", ":", "$d", ";", "}",
+            "@mixin", "blk", "{", ".i", "{", "@content", ";", "}", "}">>
+UseLib == <<"@use", "'lib'", ";">>
+
+Snippets == <<
+  Snip("inc_q", 1, UseLib \o <<".a", "{", "@include", "lib.box", "~(", "1px", ",", "3px", ")", ";", "}">>, LibStd, <<>>),
+  Snip("inc_q_named", 1, UseLib \o <<".a", "{", "@include", "lib.box", "~(", "$w", ":", "1px", ",", "$h", ":", "4px", ")", ";", "}">>, LibStd, <<>>),
+  Snip("inc_q_noargs", 1, UseLib \o <<".a", "{", "@include", "lib.plain", ";", "@include", "lib.box", "~(", "4px", ")", "}">>, LibStd, <<>>),
+  Snip("inc_q_using", 1, UseLib \o <<"@include", "lib.wrap", "~(", "3", ")", "using", "(", "$x", ")", "{", "v", ":", "$x", ";", "}">>, LibStd, <<>>),
+  Snip("inc_q_block", 1, UseLib \o <<"@include", "lib.blk", "{", "v", ":", "1", ";", "}", "@include", "lib.wrap", "using", "(", "$y", ")", "{", "u", ":", "$y", "}">>, LibStd, <<>>),
+  Snip("var_q", 1, UseLib \o <<".a", "{", "w", ":", "lib.$d", ";", "x", ":", "lib.$e", "+", "1", ";", "}">>, LibStd, <<>>),
+  Snip("fn_q", 1, UseLib \o <<".a", "{", "w", ":", "lib.dbl(", "lib.$e", ")", ";", "x", ":", "lib.dbl(", "$n", ":", "4", ")", ";", "}">>, LibStd, <<>>),
+  Snip("use_with", 1, <<"@use", "'lib'", "with", "(", "$d", ":", "3px", ")", ";", ".a", "{", "w", ":", "lib.$d", ";", "@include", "lib.plain", ";", "}">>, LibStd, <<>>),
+  Snip("use_as", 1, <<"@use", "'lib'", "as", "l", ";", ".a", "{", "w", ":", "l.$d", ";", "@include", "l.box", "~(", "1px", ")", ";", "}">>, LibStd, <<>>),
+  Snip("use_as_with", 1, <<"@use", "'lib'", "as", "l", "with", "(", "$d", ":", "7px", ")", ";", ".a", "{", "@include", "l.plain", ";", "}">>, LibStd, <<>>),
+  Snip("use_star", 1, <<"@use", "'lib'", "as", "*", ";", ".a", "{", "w", ":", "$d", ";", "@include", "box", "~(", "5px", ")", ";", "x", ":", "dbl(", "2", ")", ";", "}">>, LibStd, <<>>),
+  Snip("math", 1, <<"@use", "'sass:math'", ";", ".a", "{", "w", ":", "math.div(", "10px", ",", "4", ")", ";", "m", ":", "math.max(", "1", ",", "2", ")", ";",
+                    "f", ":", "math.floor(", "$number", ":", "1.5", ")", ";", "}">>, <<>>, <<>>),
+  Snip("forward", 1, <<"@use", "'mid'", ";", ".a", "{", "@include", "mid.box", "~(", "1px", ")", ";", "w", ":", "mid.$d", ";", "}">>, LibStd,
+                     <<"@forward", "'lib'", "show", "box", ",", "$d", ";">>),
+  Snip("forward_as", 1, <<"@use", "'mid'", ";", ".a", "{", "@include", "mid.p-box", "~(", "1px", ")", ";", "w", ":", "mid.$p-e", ";", "}">>, LibStd,
+                     <<"@forward", "'lib'", "as", "p-*", "hide", "dbl", ",", "$d", ";">>),
+  Snip("import", 1, <<"@import", "'lib'", ";", ".a", "{", "@include", "box", "~(", "1px", ")", ";", "w", ":", "$d", ";", "}">>, LibStd, <<>>),
+  Snip("mixin_args", 1, <<"@mixin", "m", "~(", "$a", ",", "$b", ":", "2", ")", "{", "p", ":", "$a", "$b", ";", "}",
+                          ".a", "{", "@include", "m", "~(", "1", ")", ";", "@include", "m", "~(", "1", ",", "$b", ":", "3", ")", ";", "}">>, <<>>, <<>>),
+  Snip("content_using", 1, <<"@mixin", "c", "~(", "$a", ")", "{", ".w", "{", "@content", "~(", "$a", ")", ";", "}", "}",
+                             "@include", "c", "~(", "7", ")", "using", "(", "$v", ")", "{", "q", ":", "$v", ";", "}">>, <<>>, <<>>),
+  Snip("fn_named", 1, <<"@function", "f", "~(", "$a", ",", "$b", ":", "1", ")", "{", "@return", "$a", "+", "$b", ";", "}",
+                        ".a", "{", "p", ":", "f(", "1", ")", ";", "q", ":", "f(", "$b", ":", "2", ",", "$a", ":", "3", ")", ";", "}">>, <<>>, <<>>),
+  Snip("if_else", 1, <<"$x", ":", "2", ";", ".a", "{", "@if", "$x", "==", "1", "{", "p", ":", "a", ";", "}", "@else", "if", "$x", "==", "2", "{", "p", ":", "b", ";", "}",
+                       "@else", "{", "p", ":", "c", ";", "}", "}">>, <<>>, <<>>),
+  Snip("each_map", 1, <<"@each", "$k", ",", "$v", "in", "(", "a", ":", "1", ",", "b", ":", "2", ")", "{", ".e-#{$k}", "{", "p", ":", "$v", ";", "}", "}">>, <<>>, <<>>),
+  Snip("for_loop", 1, <<"@for", "$i", "from", "1", "through", "2", "{", ".f-#{$i}", "{", "p", ":", "$i", "*", "2", ";", "}", "}">>, <<>>, <<>>),
+  Snip("while_loop", 1, <<"$i", ":", "2", ";", "@while", "$i", ">", "0", "{", ".w-#{$i}", "{", "p", ":", "$i", ";", "}", "$i", ":", "$i", "-", "1", ";", "}">>, <<>>, <<>>),
+  Snip("flags", 1, <<"$g", ":", "1", ";", ".a", "{", "$g", ":", "2", "!global", ";", "$l", ":", "3", "!default", ";", "p", ":", "$g", "$l", ";", "}", ".b", "{", "q", ":", "$g", "}">>, <<>>, <<>>),
+  Snip("maps_lists", 1, <<"$m", ":", "(", "a", ":", "1", ",", "b", ":", "(", "c", ":", "2", ")", ")", ";", ".a", "{", "p", ":", "map-get(", "$m", ",", "a", ")", ";",
+                          "q", ":", "nth(", "(", "1", ",", "2", ",", "3", ")", ",", "2", ")", ";", "r", ":", "[", "~a", "b", "]", ";", "}">>, <<>>, <<>>),
+  Snip("nesting", 0, <<".a", "{", "p", ":", "q", ";", "&", ".b", "{", "r", ":", "s", ";", "}", "&:hover", "{", "t", ":", "u", ";", "}", ".c", "&", "{", "v", ":", "w", ";", "}",
+                       ".d", ",", ".e", ">", ".f", "{", "x", ":", "y", ";", "}", "}">>, <<>>, <<>>),
+  Snip("interp", 0, <<"$n", ":", "x", ";", ".a-#{", "~$n", "}", "{", "p-#{", "~$n", "}", ":", "v#{", "~1", "+", "1", "}", ";", "}">>, <<>>, <<>>),
+  Snip("at_root_calc", 0, <<".a", "{", "@at-root", ".b", "{", "p", ":", "q", ";", "}", "w", ":", "calc(", "1px", "+", "2%", ")", ";", "c", ":", "rgba(", "1", ",", "2", ",", "3", ",", "0.5", ")", ";", "}">>, <<>>, <<>>)
+>>
+
+SnipSelectors == {".a", ".b", ".w", ".i", ".e-#{$k}", ".f-#{$i}", ".w-#{$i}"}
+SnipFile(s, f) == IF f = "main" THEN s.main ELSE IF f = "lib" THEN s.lib ELSE s.mid
+SnipFiles(s) == {f \in {"main", "lib", "mid"} : SnipFile(s, f) # <<>>}
+(* the gaps of one file of a snippet where trivia of kind k may go *)
+SnipGaps(s, f, k) ==
+  LET toks == SnipFile(s, f) IN
+  IF k = "ws" THEN 0..Len(toks)
+  ELSE IF s.cmt = 0 THEN {}
+  ELSE {g \in 0..Len(toks) : ~(g >= 1 /\ g < Len(toks) /\ toks[g + 1] = "{" /\ toks[g] \in SnipSelectors)}
+SnipTrivOK(s, t) == t.f \in SnipFiles(s) /\ t.k \in {"ws", "cmt"} /\ t.g \in SnipGaps(s, t.f, t.k)
+SnipById(id) == Snippets[CHOOSE i \in DOMAIN Snippets : Snippets[i].id = id]
+SnipIds == {Snippets[i].id : i \in DOMAIN Snippets}
+
+(* Named deviations of the pinned tree, as scope predicates over one insertion t *)
+(* into snippet s, with the class the rewritten source then shows:              *)
+(*   ws_after_open_bracket   whitespace / a comment right after the `[` of a    *)
+(*        bracketed list is a parse error (parser/value.rs bracket_list)        *)
+(*   ws_after_interp_open    whitespace / a comment right after `#{` is a parse *)
+(*        error (parser/strings.rs string_part_interpolation)                   *)
+(*   comment_at_comparison   a comment next to == != < > <= >= (and / or) ends  *)
+(*        the expression: `$x // c` newline `== 1` becomes the LIST `$x == 1`,  *)
+(*        which is truthy - @if takes the wrong branch, @while never ends       *)
+(*        (parser/value.rs: multispace0 instead of ignore_comments)             *)
+RelOps == {"==", "!=", "<", ">", "<=", ">="}
+InterpOpen == {".a-#{", "p-#{", "v#{"}
+PrevTok(s, t) == IF t.g >= 1 THEN SnipFile(s, t.f)[t.g] ELSE ""
+NextTok(s, t) == IF t.g < Len(SnipFile(s, t.f)) THEN SnipFile(s, t.f)[t.g + 1] ELSE ""
+SnipDevScope(d, s, t) ==
+  CASE d = "ws_after_open_bracket" -> PrevTok(s, t) = "["
+    [] d = "ws_after_interp_open"  -> PrevTok(s, t) \in InterpOpen
+    [] d = "comment_at_comparison" -> t.k = "cmt" /\ (PrevTok(s, t) \in RelOps \/ NextTok(s, t) \in RelOps)
+    [] OTHER -> FALSE
+SnipDevClass(d, c) ==
+  CASE d \in {"ws_after_open_bracket", "ws_after_interp_open"} -> c.k = "err"
+    [] d = "comment_at_comparison" -> c.k \in {"ok", "other:timeout"}
+    [] OTHER -> FALSE
+
 (* The law *)
 Preserved(p, q) == Result(q) = Result(p)
 LawAllRewrites(p) == \A r \in Rewrites(p) : Preserved(p, r.p)
